@@ -90,11 +90,14 @@ class Trace:
         self.epoch = 0
         self.dump_addrs = []
         self.bound = 0
+        self.chunk_results = []
 
     def send(self, line):
         i, m = self.pair.op(line)
         idx = len(self.ops)
         self.ops.append((line, i, m))
+        if line.startswith("storage"):
+            return i
         if m is not None and not self.diverged:
             if i.startswith("X") or m.startswith("X"):
                 self.disagreements.append((idx, ["protocol"]))
